@@ -230,6 +230,7 @@ type vjScenario struct {
 	lids     []EventID
 	nsub, nmsg, nshut int
 	unfinished int
+	unreleasedAtShutdown bool
 }
 
 func (s *vjScenario) msgOf(m *Message) int {
@@ -302,7 +303,7 @@ func vjRun(nsub, nmsg, nshut int, cancel bool, clientFaults bool, replayer int, 
 	// all its Publish calls back (delivered or ErrProviderClosed). Such a Send returns as long
 	// as Joe keeps his promise that every Publish returns once Shutdown was called.
 	var gate chan struct{}
-	if verifParam("GATE", 0) == 1 {
+	if verifParam("GATE", 0) >= 1 {
 		gate = make(chan struct{})
 	}
 	for i := 0; i < nsub; i++ {
@@ -365,7 +366,7 @@ func vjRun(nsub, nmsg, nshut int, cancel bool, clientFaults bool, replayer int, 
 				s.pubDone[k] = true
 				s.env.add(vjEvent{kind: vjPubReturn, i: 0, m: k, err: err})
 			}
-			if gate != nil {
+			if gate != nil && verifParam("GATE", 0) == 1 {
 				verifYield()
 				close(gate)
 			}
@@ -380,10 +381,27 @@ func vjRun(nsub, nmsg, nshut int, cancel bool, clientFaults bool, replayer int, 
 				sctx.cancel() // the context given to Shutdown has already ended
 				s.shutCtxDone[d] = true
 			}
+			if verifParam("SHUTCTX", 0) == 2 {
+				// the context given to Shutdown ends at some arbitrary moment
+				verifGo(func() {
+					sctx.cancel()
+					s.shutCtxDone[d] = true
+				})
+			}
 			err := s.j.Shutdown(sctx)
+			if err == nil && len(s.j.subscribers) != 0 {
+				// nil means Joe's goroutine has exited (its exit happens-before this read) and
+				// has released every subscriber on its way out
+				s.unreleasedAtShutdown = true
+			}
 			s.shutErr[d] = err
 			s.shutDone[d] = true
 			s.env.add(vjEvent{kind: vjShutdownReturn, i: d, m: -1, err: err})
+			if gate != nil && verifParam("GATE", 0) == 2 {
+				// GATE=2: the consumer's Send makes progress once Shutdown has returned
+				verifYield()
+				close(gate)
+			}
 		})
 	}
 	s.unfinished = verifRunThreads(verifParam("STEPS", 400))
@@ -531,6 +549,7 @@ func (s *vjScenario) checkC07() {
 			}
 		}
 		verifAssert(nilCount == 1, "C07/exactly-one-Shutdown-returns-nil-or-its-context-error")
+		verifAssert(!s.unreleasedAtShutdown, "C07/Shutdown-returns-nil-only-once-all-subscribers-are-released")
 		for i := 0; i < s.nsub; i++ {
 			verifAssert(s.env.returned[i], "C07/every-Subscribe-returns-after-Shutdown")
 		}
@@ -726,6 +745,8 @@ func (s *vjScenario) checkDelivery(prefix string) {
 func vhC03Joe() {
 	s := vjRun(verifParam("NSUB", 2), verifParam("NMSG", 2), verifParam("NSHUT", 0), verifParam("CANCEL", 0) == 1, verifParam("FAULTS", 0) == 1, 1, false)
 	verifAssert(!verifCrashed(), "C03/no-crash")
+	// "still registered": once a Subscribe call has returned, its subscriber gets nothing more
+	verifAssert(!s.env.usedAfterRet, "C03/nothing-handed-to-a-subscriber-whose-Subscribe-returned")
 	s.checkDelivery("C03")
 }
 
@@ -738,7 +759,7 @@ func vhC17Joe() {
 
 // ---- C04: resuming subscribers ----
 func vhC04Joe() {
-	s := vjRun(verifParam("NSUB", 1), verifParam("NMSG", 2), 0, false, false, 1, true)
+	s := vjRun(verifParam("NSUB", 1), verifParam("NMSG", 2), 0, false, verifParam("FAULTS", 0) == 1, 1, true)
 	verifAssert(!verifCrashed(), "C04/no-crash")
 	log := s.env.log
 	for i := 0; i < s.nsub; i++ {
@@ -787,7 +808,10 @@ func vhC04Joe() {
 				verifAssert(e.m >= 100, "C04/event-carries-the-same-ID-live-and-replayed")
 			}
 		}
-		same := len(got) == len(want)
+		// a subscriber whose own Send/Flush failed gets the sequence up to that failure;
+		// everybody else - whoever failed meanwhile - gets all of it
+		errPos, _ := s.firstClientError(i)
+		same := len(got) == len(want) || (errPos >= 0 && len(got) <= len(want))
 		if same {
 			for x := range got {
 				if got[x] != want[x] {
